@@ -206,6 +206,50 @@ def plan_c07(tier, seed):
                 assumptions=ASSUME_COMMON, minima={"cases": 300, "distinct_nontrivial": 200, "next_iteration": 5000, "alloc": 5000})
 
 
+JOINT_KINDS = ["J<1/1,4/4>", "J<3/1,16/16>", "J<16/16,2/2>", "J<24/8,12/4>", "J<8/8,32/16>", "J<6/2,5/1>"]
+
+
+def plan_c11(tier, seed):
+    q = tier == "quick"
+    cfgs = Q_CFGS if q else T_CFGS
+    n = _scale(tier, 60, 1500)
+    jobs = []
+    for cfg in cfgs:
+        for k in JOINT_KINDS:
+            jobs += [Job("h_joint", cfg, "asan", "layout", k, c, ops=_scale(tier, 150, 300), cpu=300) for c in chunks(n, 60 if q else 150)]
+    return dict(jobs=jobs, level="exploration",
+                rule="case = (configuration, joint type with element sizes/alignments 1..32/1..16, index): a seeded sequence of allocate_joint (two "
+                     "joint_arrays built by size / size+value / initializer_list / forward-range / input-range forms and a vector with joint_allocator; "
+                     "element counts 0..11; additional size exactly fitting, one byte short, generous, zero; upstream blocks with two different address "
+                     "residues modulo 16), clone_joint into either allocator, reset / = nullptr, swap, move assignment, move construction. Every member "
+                     "address is compared with the block the instrumented upstream handed out; non-fitting requests must throw out_of_fixed_memory; "
+                     "releases are checked by the upstream (one call, same size and alignment). non-trivial = every completed case (each creates and "
+                     "destroys joint objects); distinct = FNV-1a of kind, configuration and operation sequence",
+                assumptions=ASSUME_COMMON + ["the exact-fit computation pads empty arrays too (they align the joint stack), see DESIGN.md C11"],
+                minima={"cases": 300, "distinct_nontrivial": 200, "joint_created": 3000, "out_of_fixed_memory": 2000, "clones": 500, "moves": 1000,
+                        "layouts_verified": 5000})
+
+
+def plan_c20(tier, seed):
+    q = tier == "quick"
+    cfgs = Q_CFGS if q else T_CFGS
+    n = _scale(tier, 6, 60)
+    jobs = []
+    for cfg in cfgs:
+        for k in JOINT_KINDS:
+            jobs += [Job("h_joint", cfg, "asan", "throw", k, c, cpu=600) for c in chunks(n, 3 if q else 6)]
+    return dict(jobs=jobs, level="fault_enumeration",
+                rule="case = (configuration, element type pair, index). For allocate_unique<T>, allocate_unique<T[]> (every length 0..16), allocate_shared "
+                     "(on the instrumented allocator and on a real memory_pool / memory_stack), allocate_joint with every joint_array constructor form "
+                     "(size, size+value, initializer_list, forward range, single-pass input range, copy-with-joint, move-with-joint) and clone_joint: the "
+                     "creation is first run without failure to count the element constructions N, then once per index k < N with the k-th construction "
+                     "throwing a tagged exception. After each: live-element ledger back to its previous size, no double destruction, upstream balance "
+                     "unchanged, the caught exception is the injected one. A joint_array whose element k threw is built again in exactly fitting joint "
+                     "memory. non-trivial = every completed case; distinct = FNV-1a of kind, configuration and operation sequence",
+                assumptions=ASSUME_COMMON, minima={"cases": 30, "distinct_nontrivial": 20, "failures_injected": 5000, "retries_succeeded": 300,
+                                                   "successful_creations": 500})
+
+
 def plan_c12(tier, seed):
     q = tier == "quick"
     cfgs = Q_CFGS if q else T_CFGS
@@ -371,6 +415,8 @@ PLANS = {
     "C05": plan_c05,
     "C06": plan_c06,
     "C07": plan_c07,
+    "C11": plan_c11,
     "C12": plan_c12,
+    "C20": plan_c20,
     "C15": plan_c15,
 }
